@@ -36,5 +36,7 @@ for sub in ('overlay','overlay_native'):
 json.dump({"Replace":ov},open(os.path.join(out,'overlay-native.json'),'w'))
 PY
 (cd "$V/engine" && go build $MODFLAG -tags verif -overlay "$out/overlay-native.json" -o "$out/verifn" ./cmd/verifn) || exit 2
+# the real dcat binary of the tree under test (C01 part 2 runs it against a server in a process of its own)
+(cd "$R" && go build -o "$out/dcat" ./cmd/dcat) || exit 2
 # race-detector build of the native binary (free-running -race pass)
 (cd "$V/engine" && go build $MODFLAG -race -tags verif -overlay "$out/overlay-native.json" -o "$out/verifr" ./cmd/verifn) || exit 2
